@@ -32,20 +32,21 @@ type Violation struct {
 
 // Result is what a worker reports for one case.
 type Result struct {
-	Idx     int              `json:"i"`
-	Key     string           `json:"k,omitempty"`  // canonical state key (hashed)
-	Outcome string           `json:"o,omitempty"`  // outcome class (vacuity counter)
-	Evals   int64            `json:"e,omitempty"`  // oracle comparisons
-	Trans   int64            `json:"t,omitempty"`  // operations executed on the implementation
-	Traces  int64            `json:"tr,omitempty"` // complete executions
-	Viol    []Violation      `json:"v,omitempty"`
-	Extra   map[string]int64 `json:"x,omitempty"`
-	Keys    []string         `json:"ks,omitempty"` // further distinct-state keys seen inside the case
-	Out     json.RawMessage  `json:"out,omitempty"`
-	Sample  string           `json:"s,omitempty"`
-	Died    bool             `json:"died,omitempty"`
-	Hung    bool             `json:"hung,omitempty"`
-	DiedMsg string           `json:"diedmsg,omitempty"`
+	Idx       int              `json:"i"`
+	Key       string           `json:"k,omitempty"`  // canonical state key (hashed)
+	Outcome   string           `json:"o,omitempty"`  // outcome class (vacuity counter)
+	Evals     int64            `json:"e,omitempty"`  // oracle comparisons
+	Trans     int64            `json:"t,omitempty"`  // operations executed on the implementation
+	Traces    int64            `json:"tr,omitempty"` // complete executions
+	Viol      []Violation      `json:"v,omitempty"`
+	Extra     map[string]int64 `json:"x,omitempty"`
+	Keys      []string         `json:"ks,omitempty"` // further distinct-state keys seen inside the case
+	Out       json.RawMessage  `json:"out,omitempty"`
+	Sample    string           `json:"s,omitempty"`
+	Died      bool             `json:"died,omitempty"`
+	Hung      bool             `json:"hung,omitempty"`
+	DiedState string           `json:"diedstate,omitempty"`
+	DiedMsg   string           `json:"diedmsg,omitempty"`
 }
 
 // Check is implemented once per property.
@@ -110,7 +111,12 @@ func (w *WCtx) Clean() {
 }
 
 func ScratchRoot() string {
-	for _, base := range []string{"/dev/shm", os.TempDir()} {
+	bases := []string{"/dev/shm", os.TempDir()}
+	if b := os.Getenv("VERIF_SCRATCH_BASE"); b != "" {
+		// workers live below their parent's scratch directory, which the parent removes when it finishes
+		bases = append([]string{b}, bases...)
+	}
+	for _, base := range bases {
 		d := filepath.Join(base, "verif."+strconv.Itoa(os.Getpid()))
 		if err := os.MkdirAll(d, 0o755); err == nil {
 			return d
@@ -183,6 +189,10 @@ type Ctx struct {
 	// CaseTimeout: a worker that reports nothing for this long is killed and the case it
 	// announced is marked Died with Hung=true (a watchdog, never an oracle by itself).
 	CaseTimeout time.Duration
+	// WorkerBin: run workers with this binary instead of the running one (differently instrumented build of the same code)
+	WorkerBin string
+	// WorkerEnv is appended to the environment of workers
+	WorkerEnv []string
 	// DeathIsViolation: a worker dying on a case counts as a violation
 	// (sig "worker-died") unless the check handles Died itself.
 	mu sync.Mutex
@@ -265,8 +275,12 @@ func (c *Ctx) Pmap(cases []json.RawMessage) []Result {
 }
 
 func (c *Ctx) runWorker(cf string, shard, n, start int, res []Result) (lastBegun int, done bool) {
-	cmd := exec.Command(c.self, "worker", c.ID, c.Tier, cf, strconv.Itoa(shard), strconv.Itoa(n), strconv.Itoa(start))
-	cmd.Env = append(os.Environ(), "VERIF_IS_WORKER=1")
+	bin := c.self
+	if c.WorkerBin != "" {
+		bin = c.WorkerBin
+	}
+	cmd := exec.Command(bin, "worker", c.ID, c.Tier, cf, strconv.Itoa(shard), strconv.Itoa(n), strconv.Itoa(start))
+	cmd.Env = append(append(os.Environ(), "VERIF_IS_WORKER=1", "VERIF_SCRATCH_BASE="+c.Scratch), c.WorkerEnv...)
 	stdout, _ := cmd.StdoutPipe()
 	var errbuf tailBuf
 	cmd.Stderr = &errbuf
@@ -308,6 +322,12 @@ func (c *Ctx) runWorker(cf string, shard, n, start int, res []Result) (lastBegun
 		if hung.Load() {
 			res[begun].DiedMsg = fmt.Sprintf("watchdog: no progress for %v; stderr tail: %s", to, errbuf.String())
 		}
+		// a worker may leave a note about what it was doing (e.g. the schedule prefix being executed)
+		wscratch := filepath.Join(c.Scratch, "verif."+strconv.Itoa(cmd.Process.Pid))
+		if b, err := os.ReadFile(filepath.Join(wscratch, "current.json")); err == nil {
+			res[begun].DiedState = string(b)
+		}
+		os.RemoveAll(wscratch)
 		return begun, false
 	}
 	// died outside of any case: harness error
